@@ -142,7 +142,10 @@ def undo(key, d, baseline=None):
                 progressed = True
                 done.append(q)
                 fresh.discard(q)
-                del hir[q]
+                # keep the helper's own record while it is still referred to as a value (`.map(helper)`, a table of fns)
+                as_value = any(n.get("k") == "path" and n.get("res") in ("fn", "assocfn") and n.get("path") == q for ch in hir.values() for n in _walk(ch.get("body")))
+                if not as_value:
+                    del hir[q]
         if not progressed:
             break
     if done:
